@@ -302,7 +302,9 @@ Claim(a, r) ==
 Proj == [a \in Accts |-> [bal |-> bal'[a], stake |-> stake'[a], slots |-> slots'[a], deleg |-> deleg'[a],
                           bond |-> bond'[a], unbond |-> unbond'[a], reg |-> reg'[a]]]
 (* end of block h: timerhandler.go handleTimerJob(h), then the next block starts *)
-EndBlock(p) ==
+\* rs: the node restarts from its database after this block (no effect on the state: everything the next blocks
+\* read - accounts with their unstake and unbond lists, timers, P-Rep records - is decoded from the stored bytes)
+EndBlock(p, rs) ==
   /\ h < MaxH /\ Len(hist) < MaxOps
   /\ LET due(a) == SelectSeq(slots[a], LAMBDA u : u.exp = h)
          keep(a) == SelectSeq(slots[a], LAMBDA u : u.exp # h)
@@ -318,7 +320,7 @@ EndBlock(p) ==
   /\ h' = h + 1 /\ ntx' = 0 /\ lockp' = p
   /\ UNCHANGED <<stake, deleg, bond, reg, supply, tstake, tdeleg, tbond, burned, xst, xbond, pool, rew>>
   \* coin: an unbonding and an unstaking timer fire at this same height ("same": for one and the same account)
-  /\ Log([op |-> "end", h |-> h, lp |-> lockp, st |-> Proj, lost |-> lostc, xst |-> xst,
+  /\ Log([op |-> "end", h |-> h, lp |-> lockp, st |-> Proj, lost |-> lostc, xst |-> xst, restart |-> rs,
           coin |-> [any |-> ubtimer[h] # {} /\ ustimer[h] # {}, same |-> ubtimer[h] \cap ustimer[h] # {}],
           tot |-> [supply |-> supply, tstake |-> tstake, tdeleg |-> tdeleg, tbond |-> tbond, burned |-> burned],
           tot0 |-> [supply |-> Cardinality(Accts) * MaxAmt + Cardinality(Ext) * ExtBond,
@@ -333,7 +335,7 @@ Next == \/ \E a \in Accts, v \in 0..MaxAmt : SetStake(a, v)
         \/ \E a \in Accts : Unregister(a)
         \/ \E t \in Targets : Disqualify(t)
         \/ \E a \in Accts, r \in 0..1 : Claim(a, r)
-        \/ \E p \in Periods : EndBlock(p)
+        \/ \E p \in Periods, rs \in BOOLEAN : EndBlock(p, rs)
 Spec == Init /\ [][Next]_vars
 
 ----------------------------------------------------------------------------
